@@ -23,6 +23,8 @@ func TestReplay(t *testing.T) {
 		key, msg = replayC17(t, f.Script)
 	case "TestC19":
 		key, msg = replayC19(t, f.Script)
+	case "TestC08Mdns":
+		key, msg = replayC08c(t, f.Script)
 	default:
 		t.Fatalf("no replay handler for %s", f.Test)
 	}
